@@ -64,12 +64,20 @@ fn run<T: Sc>(case: &C12Case) -> Check {
         if wr.len() != r.len() || r.len() != n {
             return Err(Fail::new("c12.wres_len", format!("weighted residuals have {} entries, residuals {}, N = {n}", wr.len(), r.len())));
         }
-        let rmax = r.iter().fold(0.0f64, |mx, v| mx.max(v.f().abs()));
+        // componentwise rounding bound: u (|W y|_i + |w_i| sum_j |Phi_ij| |c_j|) — the two sides
+        // associate the products differently ((W Phi) c vs W (Phi c))
         let wdata = fo.problem.wdata();
-        let scale = wdata.iter().fold(rmax, |mx, v| mx.max(v.f().abs()));
+        let phi = fo.problem.phi().map_err(|e| Fail::new("c12.model", e))?;
+        let cf = fo.coeffs.as_ref().ok_or_else(|| Fail::new("c12.no_coefficients", "Ok without coefficients".to_string()))?;
+        let wv: Vec<f64> = fo.problem.weights_vec().map(|w| w.iter().map(|v| v.f().abs()).collect()).unwrap_or_else(|| vec![1.0; n]);
         for i in 0..n {
-            if !((wr[i].f() - r[i].f()).abs() <= 64.0 * (m as f64 + 4.0) * T::unit() * scale) {
-                return Err(Fail::new("c12.wres_value", format!("weighted_residuals[{i}] = {:e}, final residual of the fit = {:e}", wr[i].f(), r[i].f())));
+            let mut acc = 0.0;
+            for j in 0..m {
+                acc += phi[(i, j)].f().abs() * cf[(j, 0)].f().abs();
+            }
+            let bound = 64.0 * (m as f64 + 4.0) * T::unit() * (wdata[(i, 0)].f().abs() + wv[i] * acc) + 8.0 * T::min_positive_value().f();
+            if !((wr[i].f() - r[i].f()).abs() <= bound) {
+                return Err(Fail::new("c12.wres_value", format!("weighted_residuals[{i}] = {:e}, final residual of the fit = {:e} (bound {bound:e})", wr[i].f(), r[i].f())));
             }
         }
         // reduced chi2 = |r_w|^2 / (N - M - P), rse = sqrt of it
